@@ -41,6 +41,8 @@ def nontrivial(st):
     return 'queryall' in ops and ('flush' in ops or 'merge' in ops)
 import stream_fams
 fams += stream_fams.c08(c)
+import trace_fams
+fams += trace_fams.c08(c)
 tot, stats, samples, nontriv, cover = ec.run_families(c, fams, binp, nontrivial)
 c.cov.update(states=tot['states'], transitions=tot['transitions'], traces_validated_against_impl=0,
              behaviours_replayed=tot['behaviours'], steps_replayed=tot['steps'], simulated_behaviours=tot['sims'],
